@@ -9,7 +9,7 @@ CHECKS = {
 }
 CHECKS["C11"]=dict(level="model_checking", ref="§C11",
    technique="explicit-state search over all partitions of elapsed time into tape steps 0..16 on the real Tap, decomposed at reload events, judged by an independent pulse decoder",
-   text="For each tape image every reachable state of the real tape state machine under every partition of time into process_clocks steps of 0..16 T is visited (tens of millions of states per run); on every edge transition the pulse must be the one the reference waveform expects and last between nominal and nominal+32 T, and the pulse list must decode (independent decoder) to exactly the TAP blocks with the stated pilot counts. Exhaustive over schedules for the listed tapes; tapes themselves are a small alphabet.",
+   text="For each tape image every reachable state of the real tape state machine under every partition of time into process_clocks steps of 0..16 T is visited (tens of millions of states per run); on every edge transition the pulse must be the one the reference waveform expects and last between nominal and nominal+32 T, and the pulse list must decode (independent decoder) to exactly the TAP blocks with the stated pilot counts. Exhaustive over schedules for the listed tapes; tapes themselves are a small alphabet. System level: the real ROM loader runs in real time in the real Emulator with the tape playing and must give the same memory, IX, DE and carry as fast loading and RefLdBytes.",
    note="Trusts hook H3 (Tap: Clone + verif_state). Decomposition at reload events is re-validated on every exit transition (state must equal the pre-pass state).")
 CHECKS["C12"]=dict(level="model_checking", ref="§C12",
    technique="explicit-state BFS over command histories on the real Tap in lock step with a reference deck (refinement mapping to the uninterrupted tape)",
@@ -47,6 +47,10 @@ CHECKS["C05"]=dict(level="model_checking", ref="§C05",
    technique="complete enumeration of the frame's T-states for the INT window plus lock-step execution of an enumerated program alphabet over whole frames against the reference machine",
    text="An enabled interrupt is accepted at a boundary at T iff T<32 for every T of the frame on both machines (running and halted); all loop bodies of up to 2 (quick) / 3 (thorough) elements over a 17-element alphabet (HALT, LDIR, indexed 23-T op, EI, DI, OUT, NOP sleds hitting many residues), in contended/uncontended RAM, with IM 2 handlers of three lengths, run for 6/40 whole frames on the real Emulator without ever placing the clock and on RefZ80+RefULA: absolute T, PC and SP compared after every instruction (tens of millions of boundaries), interrupt counter at the end; emulate_frames(FrameCount(n)) emulates exactly n frames.",
    note="Absolute time of the implementation uses the hook frame counter. Programs are an alphabet, not all programs.")
+CHECKS["C10"]=dict(level="model_checking", ref="§C10",
+   technique="finite product enumeration of tapes x requests and request sequences through the real ROM trap, against a ROM-validated reference of LD-BYTES",
+   text="Block lengths around every 128-byte buffer boundary x flag bytes x right/wrong checksum, each followed by a sentinel block, x expected flag x LOAD/VERIFY x seven DE values (incl. the flag-test-skipping D=FF) x IX in RAM / ROM-RAM edge / wrap / screen x VERIFY images equal or differing at first/middle/last byte, plus request sequences running past the end of the tape and on an empty tape, on both machines: each request enters the real ROM at 0556h on the real Emulator with fast loading on; all 64K of memory, IX, DE and carry are compared with RefLdBytes; past the end the routine must not return and the loop-invariant registers must equal the ROM polling a silent tape.",
+   note="RefLdBytes is validated on every run against the genuine 48K ROM routine executed on RefZ80 with RefTape's ideal waveform. Not judged: ROM call frames just below SP; files truncated inside a block.")
 NOT_YET = {
 }
 def main():
